@@ -46,6 +46,10 @@ def run(ctx):
     parallel(ctx, facts)
 
 
+def deque_ready_calls(cb):
+    return [bb for bb, t in cb.calls() if (F.callee(t)[0] or "").endswith("ActiveItem::<F>::check_ready") or (F.callee(t)[0] or "").endswith("::check_ready")]
+
+
 def deque_calls(facts, b):
     out = []
     for bb, t in b.calls():
@@ -95,7 +99,37 @@ def check_local(ctx, facts, b):
             ctx.ob("PAIR-poll", "skip-one", ok_skip, "the rest of the window is iter_mut().skip(1)" if ok_skip else "the poll-the-rest loop does not cover every item after the head (skip != 1 or not over `active`)", site_of(b, skips[0][0]) if skips else site_of(b, not_ready))
             loop_cr = [bb for bb, t in crs if bb != front_cr and flow.dominates(dom, not_ready, bb)]
             ok_loop = bool(loop_cr) and bool(pend) and bool(skips) and all(flow.dominates(dom, skips[0][0], pb) for pb, _ in pend)
-            ctx.ob("PAIR-poll", "others-polled-before-pending", ok_loop, "all other active items are polled before Pending" if ok_loop else "Pending is returned without polling the other active items: a task that a later item depends on never makes progress", site_of(b, pend[0][0]) if pend else site_of(b, not_ready))
+            why_loop = "Pending is returned without polling the other active items: a task that a later item depends on never makes progress"
+            if not loop_cr and skips:
+                # closure form: `.skip(1).<adaptor>(|f| .. f.check_ready(cx) ..)` - exhaustive adaptors poll every item,
+                # short-circuiting ones stop at the first item whose closure result decides the answer
+                EXHAUSTIVE = re.compile(r"Iterator::(for_each|fold|count|last|max|min|sum|map|filter|inspect|collect)$")
+                SHORT = re.compile(r"Iterator::(any|all|find|find_map|position|take_while|try_for_each|try_fold|skip_while|map_while)$")
+                old = flow.CLOSURE_DEFS
+                flow.CLOSURE_DEFS = True
+                try:
+                    for cbb, ct in b.calls():
+                        fn = F.callee(ct)[0] or ""
+                        if not (EXHAUSTIVE.search(fn) or SHORT.search(fn)) or not flow.dominates(dom, skips[0][0], cbb) or len(ct["args"]) < 2:
+                            continue
+                        if "Iterator::skip" not in str(flow.expr_of(b, ct["args"][0], max_depth=6)):
+                            continue
+                        ce = flow.expr_of(b, ct["args"][-1], max_depth=4)
+                        cb = facts.bodies.get(ce[1][1]) if ce[0] == "agg" and isinstance(ce[1], tuple) and ce[1][0] == "closure" else None
+                        polls = cb is not None and bool(deque_ready_calls(cb))
+                        if not polls:
+                            continue
+                        if SHORT.search(fn):
+                            why_loop = f"the other active items are polled through `{fn.split('::')[-1]}`, which stops at the first item that decides its result: items behind it are not polled while the head is pending, so a task the head depends on can starve"
+                        elif fn.endswith(("Iterator::map", "Iterator::filter", "Iterator::inspect")):
+                            why_loop = "the polling closure sits in a lazy adaptor that nothing drives to the end"
+                            drive = [1 for dbb, dt in b.calls() if re.search(r"Iterator::(count|for_each|fold|last|collect|sum|max|min)$", F.callee(dt)[0] or "") and fn.split("::")[-1] in str(flow.expr_of(b, dt["args"][0], max_depth=6))]
+                            ok_loop = bool(drive) and bool(pend) and all(flow.dominates(dom, cbb, pb) for pb, _ in pend)
+                        else:
+                            ok_loop = bool(pend) and all(flow.dominates(dom, cbb, pb) for pb, _ in pend)
+                finally:
+                    flow.CLOSURE_DEFS = old
+            ctx.ob("PAIR-poll", "others-polled-before-pending", ok_loop, "all other active items are polled before Pending" if ok_loop else why_loop, site_of(b, pend[0][0]) if pend else site_of(b, not_ready))
             # the loop body check_ready takes the loop item
             for k, lb in enumerate(loop_cr):
                 e = flow.expr_of(b, b.term(lb)["args"][0])
